@@ -41,9 +41,11 @@ func (warmInstances) Peek(s gostatsd.Source) (*gostatsd.Instance, bool) {
 	}
 	return nil, true
 }
-func (warmInstances) IpSink() chan<- gostatsd.Source            { return make(chan gostatsd.Source) }
-func (warmInstances) InfoSource() <-chan gostatsd.InstanceInfo { return make(chan gostatsd.InstanceInfo) }
-func (warmInstances) EstimatedTags() int                        { return 1 }
+func (warmInstances) IpSink() chan<- gostatsd.Source { return make(chan gostatsd.Source) }
+func (warmInstances) InfoSource() <-chan gostatsd.InstanceInfo {
+	return make(chan gostatsd.InstanceInfo)
+}
+func (warmInstances) EstimatedTags() int { return 1 }
 
 type lockedBackend struct {
 	mu      sync.Mutex
